@@ -27,7 +27,8 @@ HASHES = ["SHA1", "SHA256", "SHA384", "SHA512"]
 MODES = ["nonce", "DH", "ECDH_P256", "ECDH_P384"]
 L0 = 364
 CLOCKS_T = [L0 * 1024 * B + 5 * 32 * B + 7 * B + 123456, (L0 * 1024 + 5 * 32 + 8) * B, (L0 * 1024 + 5 * 32 + 8) * B - 1, (L0 * 1024 + 6 * 32) * B, (L0 * 1024 + 6 * 32) * B - 1, (L0 + 1) * 1024 * B, (L0 + 1) * 1024 * B - 1]
-CLOCKS_Q = [CLOCKS_T[0], CLOCKS_T[2], CLOCKS_T[3], CLOCKS_T[6]]
+CLOCKS_T.append(CLOCKS_T[0] + 1024 * B)  # same (L1, L2) in the next L0
+CLOCKS_Q = [CLOCKS_T[0], CLOCKS_T[2], CLOCKS_T[3], CLOCKS_T[6], CLOCKS_T[7]]
 
 
 def sid_shapes(tier: str) -> t.List[str]:
